@@ -700,8 +700,10 @@ def run(ctx: Any, prog: Program) -> None:
     for kw_ in sorted(written_dir):
         ctx.check('C16.Q3', kw_ in compared_dir, fgd, ee, f'EntityDef.export writes the directive `{kw_}` but EntityDef.parse only recognises {sorted(compared_dir)}', func='EntityDef.export', text=f'keyword {kw_}')
     ctx.shape('C16.Q3', "file.write('\\n\\thalfgridsnap')" in ees and hvals.get('HALF_GRID_SNAP') == 'halfgridsnap', fgd, ee, 'keyword `halfgridsnap`: written literally, parsed as HelperTypes.HALF_GRID_SNAP', func='EntityDef.export', text='keyword halfgridsnap')
+    # the name may first go into a local (`helper_name = helper.TYPE.value` in one arm, `helper.name` in the UnknownHelper arm)
+    type_locals = {t.id for a in ast.walk(ee) if isinstance(a, ast.Assign) and dotted(a.value) == 'helper.TYPE.value' for t in a.targets if isinstance(t, ast.Name)}
     fmt_type = any(isinstance(c, ast.Call) and dotted(c.func) == 'file.write' and c.args and isinstance(c.args[0], ast.JoinedStr)
-                   and any(isinstance(v, ast.FormattedValue) and dotted(v.value) == 'helper.TYPE.value' for v in c.args[0].values)
+                   and any(isinstance(v, ast.FormattedValue) and (dotted(v.value) == 'helper.TYPE.value' or (isinstance(v.value, ast.Name) and v.value.id in type_locals)) for v in c.args[0].values)
                    and any(isinstance(v, ast.Constant) and str(v.value).endswith('(') for v in c.args[0].values) for c in ast.walk(ee))
     ctx.shape('C16.Q3', 'HelperTypes(token_value)' in eps and fmt_type, fgd, ee, 'helpers are written by HelperTypes value and parsed by HelperTypes(value)', func='EntityDef.export', text='helper name coding')
     ok = "file.write('(bool)')" in U(fgd.func('IODef.export')) and "VALUE_TYPE_LOOKUP['bool'] = ValueTypes.BOOL" in fgd.text
